@@ -355,6 +355,8 @@ class _FuncPass:
                 return
             self.oa.findings.append(OrderFinding(self.fi, p, f"order-dependent value passed to {fn}(...)", desc))
             return
+        if isinstance(p, ast.Attribute) and p.value is node:
+            return  # attribute / method of the value: a method call's own kind is computed in kind() and observed at its consumer
         if isinstance(p, ast.Starred):
             self.observe(p, "T", at)
             return
